@@ -217,7 +217,7 @@ def _limits():
     os.setsid()
 
 
-PROP_RE = re.compile(r'^\[(?P<id>[^\]]+)\] (?:line (?P<line>\d+) )?(?P<desc>.*): (?P<st>SUCCESS|FAILURE|UNKNOWN|ERROR|UNDETERMINED)$')
+PROP_RE = re.compile(r'^\[(?P<id>[^\]]+)\] (?:file \S+ )?(?:line (?P<line>\d+) )?(?P<desc>.*): (?P<st>SUCCESS|FAILURE|UNKNOWN|ERROR|UNDETERMINED)$')
 CHECKID_RE = re.compile(r'KANI_CHECK_ID_[\w.]+::(\w+)')
 
 
@@ -246,6 +246,66 @@ def run_cbmc(goto, backend, unwind, timeout, extra=()):
     else:
         res['status'] = 'error'
     return res
+
+
+def race_cbmc(goto, backends, unwind, timeout):
+    """run several back ends concurrently on the same goto binary; first verdict wins"""
+    import threading
+    procs = {}
+    results = {}
+    lock = threading.Lock()
+    done_evt = threading.Event()
+    t0 = time.time()
+
+    def worker(be):
+        cmd = ['cbmc', goto] + CBMC_FLAGS + BACKENDS[be]
+        if unwind:
+            cmd += ['--unwind', str(unwind), '--unwinding-assertions']
+        try:
+            p = subprocess.Popen(cmd, stdout=subprocess.PIPE, stderr=subprocess.STDOUT, text=True, preexec_fn=_limits)
+        except Exception as e:  # pragma: no cover
+            results[be] = {'status': 'error', 'time': 0.0, 'out': str(e), 'backend': be}
+            return
+        with lock:
+            procs[be] = p
+        try:
+            out, _ = p.communicate(timeout=timeout)
+            st = 'done' if ('VERIFICATION SUCCESSFUL' in out or 'VERIFICATION FAILED' in out) else 'error'
+            if p.returncode is not None and p.returncode < 0:
+                st = 'killed'
+        except subprocess.TimeoutExpired:
+            try:
+                os.killpg(p.pid, 9)
+            except Exception:
+                p.kill()
+            out, _ = p.communicate()
+            st = 'timeout'
+        results[be] = {'status': st, 'time': time.time() - t0, 'out': out, 'backend': be, 'rc': p.returncode}
+        if st == 'done':
+            done_evt.set()
+
+    ths = [threading.Thread(target=worker, args=(be,)) for be in backends]
+    for t in ths:
+        t.start()
+    while any(t.is_alive() for t in ths):
+        if done_evt.wait(0.2):
+            break
+    winner = None
+    for be in backends:
+        if results.get(be, {}).get('status') == 'done':
+            winner = results[be]
+            break
+    if winner is not None:
+        with lock:
+            for be, p in procs.items():
+                if p.poll() is None:
+                    try:
+                        os.killpg(p.pid, 9)
+                    except Exception:
+                        pass
+    for t in ths:
+        t.join()
+    return {'winner': winner, 'all': [results[be] for be in backends if be in results]}
 
 
 def parse_cbmc(out):
